@@ -155,7 +155,7 @@ pub fn document_ops(_cex: &Value) -> Result<String, String> {
   let r = no_panic(|| -> Vec<String> {
     let mut log = Vec::new();
     // universe A: 2 ids x 2 relationships to depth 3; universe B: 3 ids (one of a foreign DID) x 5 relationships to depth 2
-    for (n_ids, n_rels, depth) in [(2usize, 2usize, 3usize), (3, 5, 2)] {
+    for (n_ids, n_rels, depth) in [(2usize, 2usize, 3usize), (3, 5, 2), (1, 5, 3)] {
     let mut ops = Vec::new();
     for i in 0..n_ids {
       for sc in 0..=n_rels {
